@@ -199,6 +199,33 @@ def childrenVariables (cs : List CRoutine) : Dict Expr :=
 
 def dedupSorted (l : List String) : List String := (sortBy (· < ·) l).eraseDups
 
+/-- the parameter tree after local variables, inputs and evaluated links have been entered -/
+def pmInit (localVars inputs : Dict Expr) (lks : Dict (List (String × String))) (ch : List Routine) : PTree :=
+  ({ self := Dict.merge localVars inputs, kids := ch.map fun c => (c.name, ([] : Dict Expr)) } : PTree).mergeUpd
+    (compileLinkedParams (Dict.merge localVars inputs) lks)
+
+/-- the repetition branch: resources to evaluate and the substituted repetition -/
+def repStep (rep : Option Repetition) (rs : List Resource) (ccs : List CRoutine) (pmSelf : Dict Expr) :
+    Except Err (List Resource × Option Repetition) :=
+  match rep with
+  | none => pure (rs, none)
+  | some rp => do
+    let rs' ← processRepeatedResources rp rs ccs
+    let rp' ← rp.substituteSymbols pmSelf
+    pure (rs', some rp')
+
+def newInputParams (ips : List String) (inputs : Dict Expr) (ports : List Port) : List String :=
+  dedupSorted ((if inputs.isEmpty then ips else inputs.values.flatMap Expr.fv) ++ ports.flatMap fun p => Expr.fv p.size)
+
+/-- assembling the `CompiledRoutine` -/
+def finishNode (name : String) (ty : Option String) (ips : List String) (inputs : Dict Expr) (ps : List Port)
+    (cs : List (Endpoint × Endpoint)) (ord : List String) (newCons : List Constraint) (portsIn : List Port)
+    (pmSelf : Dict Expr) (resources : List Resource) (repetition : Option Repetition) (ccs : List CRoutine) : CRoutine :=
+  let ports := portsIn ++ evaluatePorts (Port.portsOf ps [.output]) pmSelf
+  { name := name, type := ty, inputParams := newInputParams ips inputs ports, ports := ports,
+    resources := evaluateResources resources pmSelf, conns := cs, rep := repetition, constraints := newCons,
+    children := ccs, childrenOrder := ord }
+
 mutual
 /-- `_compile(routine, backend, inputs, context)` on a tree whose children are already in
     `sorted_children_order`. -/
@@ -206,34 +233,21 @@ def compile (C : Comparator) (inputs : Dict Expr) (path : String) : Routine → 
   | ⟨name, ty, ips, lvs, lks, ps, rs, cs, rep, cons, ch, ord⟩ => do
     let localVars ← compileLocalVariables lvs inputs
     let newCons ← evaluateConstraints C cons (Dict.merge localVars inputs) path
-    let pm : PTree := { self := Dict.merge localVars inputs, kids := ch.map fun c => (c.name, []) }
-    let pm := pm.mergeUpd (compileLinkedParams pm.self lks)
-    let compiledPorts := evaluatePorts (Port.portsOf ps [.input, .through]) pm.self
-    let pm := pm.mergeUpd (← paramTreeFromCompiledPorts (connectionsFrom cs none) compiledPorts)
-    let (pm, compiledChildren) ← compileChildren C cs path pm ch
-    let pmSelf := Dict.merge pm.self (childrenVariables compiledChildren)
-    let (resources, repetition) ← (match rep with
-      | none => pure (rs, none)
-      | some rp => do
-        let rs' ← processRepeatedResources rp rs compiledChildren
-        let rp' ← rp.substituteSymbols pmSelf
-        pure (rs', some rp') : Except Err (List Resource × Option Repetition))
-    let newResources := evaluateResources resources pmSelf
-    let compiledPorts := compiledPorts ++ evaluatePorts (Port.portsOf ps [.output]) pmSelf
-    let base : List String :=
-      if inputs.isEmpty then ips else inputs.values.flatMap Expr.fv
-    let newInputParams := dedupSorted (base ++ compiledPorts.flatMap fun p => Expr.fv p.size)
-    pure { name := name, type := ty, inputParams := newInputParams, ports := compiledPorts,
-           resources := newResources, conns := cs, rep := repetition, constraints := newCons,
-           children := compiledChildren, childrenOrder := ord }
+    let pm := pmInit localVars inputs lks ch
+    let portsIn := evaluatePorts (Port.portsOf ps [.input, .through]) pm.self
+    let upd ← paramTreeFromCompiledPorts (connectionsFrom cs none) portsIn
+    let (pm2, ccs) ← compileChildren C cs path (pm.mergeUpd upd) ch
+    let pmSelf := Dict.merge pm2.self (childrenVariables ccs)
+    let (resources, repetition) ← repStep rep rs ccs pmSelf
+    pure (finishNode name ty ips inputs ps cs ord newCons portsIn pmSelf resources repetition ccs)
 def compileChildren (C : Comparator) (conns : List (Endpoint × Endpoint)) (path : String) :
     PTree → List Routine → Except Err (PTree × List CRoutine)
   | pm, [] => pure (pm, [])
   | pm, c :: cs => do
     let cc ← compile C ((pm.kids.get? c.name).getD []) (path ++ "." ++ c.name) c
-    let pm := pm.mergeUpd (← paramTreeFromCompiledPorts (connectionsFrom conns (some c.name)) cc.ports)
-    let (pm, ccs) ← compileChildren C conns path pm cs
-    pure (pm, cc :: ccs)
+    let upd ← paramTreeFromCompiledPorts (connectionsFrom conns (some c.name)) cc.ports
+    let (pm', ccs) ← compileChildren C conns path (pm.mergeUpd upd) cs
+    pure (pm', cc :: ccs)
 end
 
 end Bartiq
